@@ -11,7 +11,7 @@ import json
 from vlib import common, histcheck, miri
 
 MODULE = "TriompheModel.Props.C08"
-EXTRA = ["TriompheModel.Props.Gates", "TriompheModel.Proofs.HistCow", "TriompheModel.WM.Later", "TriompheModel.Props.Monitor", "TriompheModel.Props.ApiShape"]
+EXTRA = ["TriompheModel.Props.Gates", "TriompheModel.Proofs.HistCow", "TriompheModel.WM.Later", "TriompheModel.Props.Monitor", "TriompheModel.Props.ApiShape", "TriompheModel.Props.C03Programs"]
 TAGS = ["C08"]
 WEIGHTS = dict(makeMut=26, makeUnique=14, clone=18, cloneArc=8, conv=16, cb=8, drop=10)
 PROGRAMS_QUICK = ["make_mut_vs_readers", "offset_make_mut_overaligned", "unwrap_or_clone_vs_make_mut"]
